@@ -224,6 +224,110 @@ func runLifecycle(args []string) error {
 						src.Close()
 					}
 				}
+				// a burst: many clients send at the same instant; each gets exactly the answer to ITS request, at ITS address
+				// (what the receive loop hands to a handler goroutine belongs to that datagram alone)
+				for i, a := range all {
+					const nb = 24
+					if protoOf[i] == 6 {
+						socks := make([]*net.UDPConn, 0, nb)
+						xids := make([]dhcpv6.TransactionID, 0, nb)
+						for j := 0; j < nb; j++ {
+							c, err := net.ListenUDP("udp6", &net.UDPAddr{IP: net.ParseIP("::1")})
+							if err != nil {
+								break
+							}
+							socks = append(socks, c)
+						}
+						msgs := make([][]byte, len(socks))
+						for j := range socks {
+							m, _ := dhcpv6.NewSolicit(net.HardwareAddr{2, 0, 0x77, byte(k), byte(i), byte(j)})
+							xids = append(xids, m.TransactionID)
+							msgs[j] = m.ToBytes()
+						}
+						for j, c := range socks {
+							c.WriteToUDP(msgs[j], &a)
+						}
+						own, stray, missing := 0, 0, 0
+						got := make([]int, len(socks))
+						read := func(j int, wait time.Duration) {
+							c := socks[j]
+							c.SetReadDeadline(time.Now().Add(wait))
+							for {
+								nn, _, err := c.ReadFromUDP(buf)
+								if err != nil {
+									return
+								}
+								rp, err := dhcpv6.FromBytes(buf[:nn])
+								rm, ok := rp.(*dhcpv6.Message)
+								if err == nil && ok && rm.TransactionID == xids[j] {
+									got[j]++
+								} else {
+									stray++
+								}
+								if wait > 10*time.Millisecond {
+									return // the first answer; extras are collected in the second pass
+								}
+							}
+						}
+						for j := range socks {
+							read(j, 3*time.Second)
+						}
+						time.Sleep(100 * time.Millisecond)
+						for j := range socks {
+							read(j, 2*time.Millisecond)
+						}
+						for j, c := range socks {
+							switch {
+							case got[j] == 1:
+								own++
+							case got[j] == 0:
+								missing++
+							default:
+								stray += got[j] - 1
+							}
+							c.Close()
+						}
+						t.Emit(Ev{"ev": "burst", "i": i + 1, "proto": 6, "n": len(socks), "own": own, "stray": stray, "missing": missing})
+					} else if relay != nil {
+						want := map[dhcpv4.TransactionID]net.HardwareAddr{}
+						var msgs [][]byte
+						for j := 0; j < nb; j++ {
+							mac := net.HardwareAddr{2, 0, 0x77, byte(k), byte(i), byte(j)}
+							d, _ := dhcpv4.NewDiscovery(mac)
+							d.GatewayIPAddr = net.IPv4(127, 0, 0, 1).To4()
+							if j%2 == 1 { // alternating lengths: a datagram handled with its neighbour's length would be cut or padded
+								d.UpdateOption(dhcpv4.OptHostName(fmt.Sprintf("a-rather-long-host-name-to-make-this-datagram-longer-%04d", j)))
+							}
+							want[d.TransactionID] = mac
+							msgs = append(msgs, d.ToBytes())
+						}
+						for _, b := range msgs {
+							relay.WriteToUDP(b, &a)
+						}
+						own, stray := 0, 0
+						seen := map[dhcpv4.TransactionID]bool{}
+						relay.SetReadDeadline(time.Now().Add(3 * time.Second))
+						for len(seen) < nb {
+							nn, _, err := relay.ReadFromUDP(buf)
+							if err != nil {
+								break
+							}
+							rp, err := dhcpv4.FromBytes(buf[:nn])
+							if err != nil {
+								stray++
+								continue
+							}
+							mac, ok := want[rp.TransactionID]
+							if ok && !seen[rp.TransactionID] && rp.ClientHWAddr.String() == mac.String() {
+								seen[rp.TransactionID] = true
+								own++
+							} else {
+								stray++
+							}
+						}
+						t.Emit(Ev{"ev": "burst", "i": i + 1, "proto": 4, "n": nb, "own": own, "stray": stray, "missing": nb - own})
+					}
+				}
 				done := make(chan error, 1)
 				go func() { done <- srv.Wait() }()
 				time.Sleep(20 * time.Millisecond)
